@@ -5,7 +5,7 @@ CHECKS = {
         level="model_checking", design="§5 C01", technique="TLA+ spec (MC_Bounds) model-checked with TLC + trace validation of the real bound computers (Trace_Bounds) + replay of TLC behaviours",
         text="TLC explores every hidden game of a small integer lattice x both SA computers x every history of reveal/un-reveal/bulk-reset/compute "
              "(stale tables kept as state) and checks soundness, ordering and exactness of known rows; recorded histories of the real "
-             "IncompleteCooperativeGame (n=2..6, integer/dyadic/negative/float games) are validated step by step against the same specification, "
+             "IncompleteCooperativeGame (n=2..6; integer/dyadic/negative/tiny-magnitude/float games; reveal, un-reveal, set, unset, bulk set, bulk reset, compute) are validated step by step against the same specification, "
              "the soundness clauses being evaluated on the logged tables against the hidden game.",
         note="exhaustive only within the model constants (n=3 full history graph, n=4 reduced); beyond that sampled traces; float games compared on a 2^-16 grid (1 unit tolerance)"),
     "C02": dict(
@@ -19,7 +19,7 @@ CHECKS = {
         level="model_checking", design="§5 C03", technique="TLC on MC_Bounds (both folds on every reachable table) and MC_Cache + trace validation of twin objects interleaved across player counts in one interpreter",
         text="TLC checks that the two SA folds agree on every reachable table (stale rows included, games of any class, n<=3 quick / n=4 thorough) and that the "
              "memoised structure handed to a call is the one of its own player count under every interleaving; twin real objects (one per computer) "
-             "go through identical histories, traces for n=2..8 advanced in random interleaving inside one interpreter, and TLC demands equal tables "
+             "go through identical histories (reveal, un-reveal, set, unset, bulk set, bulk reset, compute), traces for n=2..8 advanced in random interleaving inside one interpreter, and TLC demands equal tables "
              "and bit-identical float arrays on exact games (one grid unit on float games).",
         note="interleavings of the real interpreter are sampled, not exhausted; exhaustive within the model constants only"),
     "C04": dict(
@@ -91,8 +91,8 @@ CHECKS = {
         note="linearity argument instead of a symbolic proof; orderings enumerated up to n=6 on recorded results, weighted form beyond"),
     "C10": dict(
         level="exploration", design="§5 C10", technique="registry swept by a driver; TLC evaluates the TLA+ contract table, class predicates and determinism clauses on every recorded call (Trace_Generators); determinism state machine model-checked",
-        text="Every key of the generator registry except 'convex' is invoked for n=3..6 (quick) / 3..8 (thorough) with 3 / 40 seeds, twice per seed with identically seeded "
-             "numpy Generators; TLC checks on each recorded pair: no exception, requested player count, v(empty)=0, float64, superadditive, additionally monotone "
+        text="Every key of the generator registry except 'convex' is invoked for n=3..6 (quick, 24/16/6/3 seeds) / 3..8 (thorough, 160..20 seeds), twice per seed with identically seeded "
+             "numpy Generators, the first result being modified in place before the second call; TLC checks on each recorded pair: no exception, requested player count, v(empty)=0, float64, superadditive, additionally monotone "
              "non-increasing for the XOS/XS/OXS/K-budget/coverage families (contract table in Generators.tla), bit-identical repeat unless the family is a documented "
              "exception, and owner rotation for the round-robin factory.",
         note="seeds are sampled, not exhausted; the specification contributes the oracle, not exhaustiveness"),
